@@ -17,7 +17,8 @@ PENDING_TEXT = {
             "ShapeVerif.sources_accept"],
     "C05": ["ShapeVerif.classifyArray_never_fails", "ShapeVerif.classifyArrayV_total",
             "ShapeVerif.rejectDiagnostics_no_panic", "ShapeVerif.isSuperset_never_errs", "ShapeVerif.work_bounds"],
-    "C07": ["ShapeVerif.infer_payload_independent", "ShapeVerif.infer_factors", "ShapeVerif.infer_repetition",
+    "C07": ["ShapeVerif.rerender_same_shape", "ShapeVerif.infer_member_order",
+            "ShapeVerif.infer_payload_independent", "ShapeVerif.infer_factors", "ShapeVerif.infer_repetition",
             "ShapeVerif.infer_scalar_forms"],
 }
 
@@ -192,11 +193,14 @@ PROPS = {
     "C07": {
         "module": "ShapeVerif.Props.C07",
         "theorems": PENDING_TEXT["C07"],
-        "statements": {},
-        "partial": ["the lift from document trees to texts (whitespace, number and string lexical forms) rests on the text-layer model being compared with the code; infer_factors is proved on trees"],
+        "statements": {
+            "rerender_same_shape": "Rerender d d' → ∀ s, inferDoc d = ok s ↔ inferDoc d' = ok s, where Rerender is the least equivalence closed under nesting (one array element / one member value at a time) containing: any two numbers, any two strings, any two booleans; any permutation of an object's members; any two numbers n+1, m+1 of copies in an array of copies",
+            "infer_member_order": "ms.Perm ms' → inferDoc (obj ms) = ok s → inferDoc (obj ms') = ok s (also with repeated member names of equal value shapes)",
+        },
+        "partial": ["proved on document trees (rerender_same_shape covers payloads, lexical forms of scalars as far as they are payloads of the tree, member order, number of copies, all under nesting); the lift to texts (insignificant whitespace, the lexical form of numbers/strings/escapes) rests on the text-layer model being compared with the code: that the lexer/parser produce the same tree for two renderings is not a theorem"],
         "rule": "for random documents d: three re-renderings r(d) each (other scalars of the same kind, other number/string lexical forms incl. escapes, reversed/swapped members, a same-shaped element appended to homogeneous arrays, four whitespace styles incl. CRLF and lone CR); from_str(d) == from_str(r(d)) on the real code and on the model. Non-trivial = container.",
         "assumptions": [],
-        "level_text": "On document trees the inferred shape is proved independent of scalar payloads, of member order (distinct names) and of the number of same-shaped elements (Lean theorems); the text layer is modelled and compared with the code, and the metamorphic equalities are evaluated on the real from_str.",
+        "level_text": "rerender_same_shape is a Lean theorem over all document trees: the inferred shape (and rejection) is invariant under every rewrite the property lists — scalar payloads, member order, number of copies — applied anywhere in the document, in any combination; the text layer is modelled and compared with the code, and the metamorphic equalities are evaluated on the real from_str.",
         "level_note": "Trusted: Lean kernel; models (differential testing).",
     },
     "C06": {
@@ -234,7 +238,7 @@ PROPS = {
         "module": "ShapeVerif.Props.C12",
         "theorems": ["ShapeVerif.inferSVal_cost", "ShapeVerif.inferSVal_level_additive", "ShapeVerif.inferDoc_cost",
                      "ShapeVerif.merger_cost", "ShapeVerif.merger_cost_right", "ShapeVerif.merge_cost",
-                     "ShapeVerif.subset_cost"],
+                     "ShapeVerif.subset_cost", "ShapeVerif.subsetT_is_isSubset"],
         "statements": {
             "inferSVal_cost": "calls of From<&Value> on v = nodes v (each node once)",
             "inferSVal_level_additive": "one more array level adds exactly one call",
@@ -244,7 +248,7 @@ PROPS = {
             "subset_cost": "calls of is_subset in a.is_subset(b) ≤ size a * size b",
         },
         "partial": ["the work measure proved is the number of calls of the four recursive functions (tied exactly to the code by hook counters); that heap allocations / time follow the call counts polynomially is measured on growth families (log-log slope <= 2.3), not proved",
-                    "the tick twin of is_subset is a separate function mirroring evaluation order; its Boolean result and its count are both compared with the real code on every case"],
+                    "the tick twin of is_subset mirrors the evaluation order of the code; subsetT_is_isSubset proves its Boolean is isSubset's, and both its Boolean and its count are compared with the real code on every case"],
         "rule": "ticks_subset / ticks_merger on all ordered pairs of the small-scope universe, related random pairs and reachable (sample, accumulator) pairs; ticks_infer / ticks_inferv on random documents and on the D10 family [[..[1,1]..,1],1] to depth 24; allocation counts of from_str, From<&Value>, from_sources, is_subset on depth 1..20, object-nesting 1..10, width 10..1000 (thorough 10^4), 10..1000 sources with a log-log slope test. Non-trivial = container involved.",
         "assumptions": ["allocations and wall time are bounded by a polynomial of the call counts (validated by the measured families)"],
         "level_text": "For the deterministic call-count measure the bounds are Lean theorems over all inputs: the value path converts each node exactly once (so a nesting level adds work proportional to that level — the exponential D10 behaviour is gone), the text path enters parse_rule at most once per node, merging k sources costs at most the total size of the sources in merger calls, and a subset query makes at most size(a)*size(b) calls. The model's counts are compared with hook counters in the real code for every generated case; allocation counts on the property's growth families are measured on the real code and must fit a low-degree polynomial.",
